@@ -4,10 +4,12 @@ CONSTANTS MaxOps = 1
   MaxErr = 3
   GScales <- ScalesSmall
   Targets <- TargetsAll
+  Share = FALSE
   Patterns = {1, 2}
 PROPERTY ScaleExact
 PROPERTY UnknownScaleRaises
 PROPERTY GetScalePure
 PROPERTY RoundTrip
+PROPERTY TwinUntouched
 INVARIANT Emitted
 CHECK_DEADLOCK FALSE
